@@ -61,6 +61,12 @@ def num_of(addr):
     return int(str(addr).split(".")[3].split(":")[0])
 
 
+def _drop_handshake(node, conn, req, frame):
+    """The node accepts the TCP connection and closes it on the first frame (mode "drop")."""
+    conn.server_closed()
+    return True
+
+
 class HarnessError(AssertionError):
     """The harness cannot perform the requested step on the real objects (turned into a divergence)."""
 
@@ -86,19 +92,28 @@ class RecordingLBP(LoadBalancingPolicy):
     """Round-robin child; records every notification; IGNORED for the configured hosts; deterministic plans
     (live hosts by address) so that the control connection always prefers the contact point."""
 
-    def __init__(self, ignored):
+    def __init__(self, ignored, remote=(), scan=False):
         self.child = RoundRobinPolicy()
         self.ignored = set(addr_of(h) for h in ignored)
+        self.remote = set(addr_of(h) for h in remote)     # distance depends on liveness, as DCAwareRoundRobinPolicy's remote hosts
+        self.scan = scan
         self.log = []
 
     def distance(self, host):
-        return HostDistance.IGNORED if host.address in self.ignored else HostDistance.LOCAL
+        if host.address in self.ignored:
+            return HostDistance.IGNORED
+        if host.address in self.remote:
+            return HostDistance.REMOTE if host in self.child._live_hosts else HostDistance.IGNORED
+        return HostDistance.LOCAL
 
     def populate(self, cluster, hosts):
         self.child.populate(cluster, hosts)
 
     def make_query_plan(self, working_keyspace=None, query=None):
-        return sorted(self.child._live_hosts, key=lambda h: num_of(h.address))
+        plan = sorted(self.child._live_hosts, key=lambda h: num_of(h.address))
+        if self.scan:                                     # subject hosts first, the contact point last
+            plan = [h for h in plan if num_of(h.address) != CTL] + [h for h in plan if num_of(h.address) == CTL]
+        return plan
 
     def check_supported(self):
         pass
@@ -177,7 +192,7 @@ class _DetSession(ccluster.Session):
 
 class HostsHarness:
     VARS = ("known", "removed", "up", "handling", "recon", "pools", "grp", "exec", "sched", "lbpLive", "flags",
-            "ctl", "ctlPend", "req", "emL", "emP", "nopen")
+            "ctl", "ctlPend", "req", "emL", "emP", "emC", "nopen")
 
     def __init__(self, consts):
         self.hosts = sorted(consts["Hosts"])
@@ -191,7 +206,10 @@ class HostsHarness:
             self.nodes[h] = w.add_node(FakeNode(addr_of(h), tokens=["%d0" % h]))
         self.peers = set(self.known0)
         self._set_peers()
-        self.lbp = RecordingLBP(self.ignored)
+        env = set(consts.get("Env", ()))
+        self.remote = set(h for h in self.hosts if h >= 3) if "remote" in env else set()
+        self.scan = "ctlscan" in env
+        self.lbp = RecordingLBP(self.ignored, self.remote, self.scan)
         self.listener = RecordingListener()
         profile = ExecutionProfile(load_balancing_policy=self.lbp, request_timeout=10.0)
         # The graph profiles the Cluster would add by itself wrap the *default* policy object, which then hears every
@@ -200,7 +218,7 @@ class HostsHarness:
         for key, cls in ((ccluster.EXEC_PROFILE_GRAPH_DEFAULT, ccluster.GraphExecutionProfile),
                          (ccluster.EXEC_PROFILE_GRAPH_SYSTEM_DEFAULT, ccluster.GraphExecutionProfile),
                          (ccluster.EXEC_PROFILE_GRAPH_ANALYTICS_DEFAULT, ccluster.GraphAnalyticsExecutionProfile)):
-            profiles[key] = cls(load_balancing_policy=RecordingLBP(self.ignored))
+            profiles[key] = cls(load_balancing_policy=RecordingLBP(self.ignored, self.remote, self.scan))
         self.cluster = make_cluster(w, [addr_of(CTL)], inline=False,
                                     execution_profiles=profiles,
                                     reconnection_policy=ConstantReconnectionPolicy(1.0, max_attempts=None))
@@ -235,6 +253,26 @@ class HostsHarness:
             return factory
         self.cluster._make_connection_factory = make_connection_factory_with_yield
         self.recon_threads = []       # parked _ReconnectionHandler.run calls: (thread, handler)
+        # a control connection attempt takes time too: the logical thread running ControlConnection._reconnect stops
+        # where _try_connect calls connection_factory(endpoint, is_control_connection=True)
+        conn_factory = self.cluster.connection_factory
+
+        def connection_factory_with_yield(endpoint, *a, **k):
+            if k.get("is_control_connection") and self.ds.active is not None:
+                self._ctl_dialling = num_of(endpoint.address)
+                self.ds.yield_point("ctl:connect")
+            return conn_factory(endpoint, *a, **k)
+        self.cluster.connection_factory = connection_factory_with_yield
+        self.dial_threads = []        # parked control connection attempts: (thread, host number)
+        if self.scan:
+            # only the contact point serves a control connection: a subject node answers system.local with an error
+            def no_local(node, conn, frame, req):
+                if "system.local" in req["query"]:
+                    node.send(conn, frame.version, frame.stream, wire.ERROR, wire.body_error(wire.ERR_INVALID, "no system.local here"))
+                    return True
+                return False
+            for hh in self.hosts:
+                self.nodes[hh].system_hook = no_local
         # yield points of Cluster.shutdown: where it starts iterating the sessions, where it shuts the executor
         self.cluster.sessions = _YieldingWeakSet(self.cluster.sessions)
         self.cluster.sessions.order = self._sess_num
@@ -256,6 +294,7 @@ class HostsHarness:
         self.req_futures = {}
         self._lmark = len(self.listener.log)
         self._pmark = len(self.lbp.log)
+        self._cmark = len(self.world.conns)
         self.returned_conns = None    # number of connections ever opened when shutdown() returned
 
     # ------------------------------------------------------------------ helpers
@@ -385,6 +424,15 @@ class HostsHarness:
             return T("?%s:%s" % (name, type(ex).__name__))
         return T("?" + str(name))
 
+    def _ctl_advance(self, th):
+        """Run a ControlConnection._reconnect thread to its next stop: the next connection attempt, _set_new_connection,
+        or its end."""
+        lab = self.ds.run_until(th, lambda l: l in ("ctl:connect", "set_new_connection"))
+        if lab == "ctl:connect":
+            self.dial_threads.append((th, self._ctl_dialling))
+        elif lab == "set_new_connection":
+            self.cc_threads.append(th)
+
     def _recon_desc(self, handler):
         host = handler.host
         return T("ReconConn", h=num_of(host.address), kind="att" if host._reconnection_handler is handler else "det",
@@ -430,6 +478,14 @@ class HostsHarness:
                 raise HarnessError("no control connection reconnect is waiting to install its connection")
             self.ds.finish(self.cc_threads.pop(0))
             return
+        if want[0] == "CtlDial":
+            for i, (th, hh) in enumerate(self.dial_threads):
+                if hh == want[2]:
+                    del self.dial_threads[i]
+                    self._ctl_advance(th)
+                    return
+            raise HarnessError("no control connection attempt to host %s in flight; in flight=%s"
+                               % (want[2], [x for _, x in self.dial_threads]))
         if want[0] == "ReconConn":
             for i, (th, handler) in enumerate(self.recon_threads):
                 if self._recon_desc(handler) == want:
@@ -466,9 +522,7 @@ class HostsHarness:
             return
         if want[0] == "CtlReconnect":
             th = self._spawn("CC", self.ex.run, t)
-            lab = self.ds.run_until(th, "set_new_connection")
-            if lab != "end":
-                self.cc_threads.append(th)
+            self._ctl_advance(th)
             return
         self.ex.run(t)
 
@@ -512,6 +566,7 @@ class HostsHarness:
         node = self.nodes[act["h"]]
         node.accepting = act["x"] != "refuse"
         node.require_auth = act["x"] == "auth"
+        node.handshake_script = _drop_handshake if act["x"] == "drop" else None
 
     def act_CtlFail(self, act):
         c = self._ctl_conn()
@@ -599,6 +654,8 @@ class HostsHarness:
             ex[T("CtlSet")] += 1
         for _, handler in self.recon_threads:
             ex[self._recon_desc(handler)] += 1
+        for _, hh in self.dial_threads:
+            ex[T("CtlDial", h=hh)] += 1
         open_sets = set()
         for th, fr, rec in self.up_threads:
             ex[self._cont_desc(fr, rec)] += 1
@@ -628,18 +685,20 @@ class HostsHarness:
         emL = sorted(self.listener.log[self._lmark:])
         emP = sorted(self.lbp.log[self._pmark:])
         self._lmark, self._pmark = len(self.listener.log), len(self.lbp.log)
+        emC = len(self.world.conns) - self._cmark
+        self._cmark = len(self.world.conns)
         nopen = len(self.world.open_connections())
         nnode = sum(len(n.open_connections()) for n in self.nodes.values())
         return {"known": known, "removed": removed, "up": up, "handling": handling, "recon": recon, "pools": pools,
                 "grp": grp, "exec": dict(ex), "sched": dict(sc), "lbpLive": self.lbp.live(),
                 "flags": flags, "ctl": ctl, "ctlPend": bool(self.cc_threads), "req": dict(self.req),
-                "emL": emL, "emP": emP, "nopen": nopen if nopen == nnode else (nopen, nnode)}
+                "emL": emL, "emP": emP, "emC": emC, "nopen": nopen if nopen == nnode else (nopen, nnode)}
 
     # ------------------------------------------------------------------ after shutdown() returned
     def returned(self):
         th = self.shut_thread and self.ds.threads[self.shut_thread]
         return bool(th and th.done and not self.exec_items() and not self.cc_threads and not self.up_threads
-                    and not self.recon_threads)
+                    and not self.recon_threads and not self.dial_threads)
 
     def after_return_probe(self):
         """Everything that could still run once shutdown() has returned is given the chance to: scheduler entries,
@@ -693,7 +752,8 @@ class HostsHarness:
                 self._shut_step(())
         except Exception:
             pass
-        for th in self.cc_threads + [x[0] for x in self.up_threads] + [x[0] for x in self.recon_threads]:
+        for th in self.cc_threads + [x[0] for x in self.up_threads] + [x[0] for x in self.recon_threads] + \
+                [x[0] for x in self.dial_threads]:
             try:
                 self.ds.finish(th)
             except Exception:
@@ -746,7 +806,7 @@ def spec_view(state, consts):
         "lbpLive": frozenset(st["lbpLive"]),
         "flags": (phase >= 1, phase >= 1, phase >= 1, phase >= 2, phase >= 3),
         "ctl": st["ctl"], "ctlPend": st["ctlPend"], "req": _fn(st["req"]),
-        "emL": sorted(tuple(x) for x in st["emL"]), "emP": sorted(tuple(x) for x in st["emP"]), "nopen": nopen,
+        "emL": sorted(tuple(x) for x in st["emL"]), "emP": sorted(tuple(x) for x in st["emP"]), "emC": st["emC"], "nopen": nopen,
     }
 
 
@@ -837,7 +897,7 @@ def to_post(p, consts):
         "exec": _bag_arr(p["exec"]), "sched": _bag_arr(p["sched"]),
         "lbpLive": sorted(p["lbpLive"]), "phase": PHASES.get(tuple(p["flags"]), -1),
         "ctl": p["ctl"], "ctlPend": p["ctlPend"], "req": [p["req"][s] for s in sess],
-        "emL": [list(x) for x in p["emL"]], "emP": [list(x) for x in p["emP"]],
+        "emL": [list(x) for x in p["emL"]], "emP": [list(x) for x in p["emP"]], "emC": p["emC"],
         "nopen": p["nopen"] if isinstance(p["nopen"], int) else -1,
     }
 
@@ -881,8 +941,9 @@ def enabled_ops(h, p, consts, state):
                     ops.append(("env", A("TopologyEvent", h=hh, x="NEW_NODE")))
                 if hh in state["peers"] and p["known"][hh]:
                     ops.append(("env", A("TopologyEvent", h=hh, x="REMOVED_NODE")))
-            for m in ("ok", "refuse", "auth"):
-                if m != state["mode"][hh] and (m == "ok" or (m == "refuse" and "mode" in env) or (m == "auth" and "auth" in env)):
+            for m in ("ok", "refuse", "auth", "drop"):
+                if m != state["mode"][hh] and (m == "ok" or (m == "refuse" and "mode" in env) or (m == "auth" and "auth" in env)
+                                               or (m == "drop" and "drop" in env)):
                     ops.append(("env", A("SetMode", h=hh, x=m)))
         if "ctl" in env and p["ctl"] == "open" and not p["ctlPend"]:
             ops.append(("env", A("CtlFail")))
